@@ -287,7 +287,9 @@ def run_a3(case, acc, order):
         tr = dsgen.make_dataset(d / 'ds', spec)
         nsw = tr['spec']['nsw']
         ids = np.array([0, 2, 3, 5, 6, 1, 4][:nsub], dtype=np.int64)
-        chans = np.tile(np.array([1, 3], dtype=np.int32), (nsub, 1))
+        # (variants 2, 3 mod 4: the store holds channels 0 and 3)
+        stored = [1, 3] if variant % 4 < 2 else [0, 3]
+        chans = np.tile(np.array(stored, dtype=np.int32), (nsub, 1))
         W = np.zeros((nsub, nsw, 2))
         for i in range(nsub):
             for t in range(nsw):
@@ -302,10 +304,12 @@ def run_a3(case, acc, order):
             acc.state()
             for k in range(1, nsub + 1):
                 for sreq in itertools.combinations(range(nsub), k):
+                  # both stored channels, and (for the full spike set) the first stored channel alone
+                  for creq in ([stored] + ([[stored[0]]] if k == nsub else [])):
                     req_ids = ids[list(sreq)]
-                    F, gaps = ref_pca(W[list(sreq)])
+                    F, gaps = ref_pca(W[list(sreq)][:, :, [stored.index(c) for c in creq]])
                     try:
-                        got = m.get_features(req_ids, np.array([1, 3]))
+                        got = m.get_features(req_ids, np.array(creq))
                     except Exception as e:
                         got = e
                     degenerate = min(gaps) < 1e-6
@@ -317,7 +321,7 @@ def run_a3(case, acc, order):
                                 PROP, type(got).__name__ if isinstance(got, BaseException) else 'shape')
                             acc.violation(sig, core.make_record(
                                 PROP, 'pca-features', sig, case=case,
-                                op={'spikes': [int(x) for x in req_ids]}, expected=list(F.shape),
+                                op={'spikes': [int(x) for x in req_ids], 'channels': creq}, expected=list(F.shape),
                                 observed=describe(got)), order * 1000 + k)
                         continue
                     ok = isinstance(got, np.ndarray) and got.shape == F.shape and np.allclose(
@@ -335,7 +339,7 @@ def run_a3(case, acc, order):
                             'shape' if got.shape != F.shape else 'value')
                         sig = '%s/pca-features/%s' % (PROP, kind)
                         acc.violation(sig, core.make_record(
-                            PROP, 'pca-features', sig, case=case, op={'spikes': [int(x) for x in req_ids]},
+                            PROP, 'pca-features', sig, case=case, op={'spikes': [int(x) for x in req_ids], 'channels': creq},
                             expected=describe(F), observed=describe(got)), order * 1000 + k)
         finally:
             m.close()
@@ -409,7 +413,36 @@ def run_a3x(case, acc, order):
             m.close()
 
 
-RUN = {'a1': run_a1, 'a2': run_a2, 'a3': run_a3, 'a3x': run_a3x}
+WIDE_ROWS = [[10, 200, 37, 150], [300, 301, 302, 303], [5, 6, 7, 8], [150, 10, 383, 0]]
+WIDE_REQ = [150, 0, 24, 48, 72, 96, 120, 10, 168, 192, 216, 240, 264, 288, 312, 383]
+
+
+def run_a1w(case, acc, order):
+    """from_sparse on a 384-channel probe: few spikes (several from the same template, so that the
+    flattened column table repeats channels), 16 requested channels spread over the probe."""
+    from phylib.io.model import from_sparse
+    ns = case['n_spikes']
+    for ti, table in enumerate(itertools.product(range(len(WIDE_ROWS)), repeat=ns)):
+        cols = np.array([WIDE_ROWS[r] for r in table], dtype=[np.uint32, np.int64, np.int32][ti % 3])
+        data = (np.arange(1, ns * 4 * 3 + 1, dtype=np.float64) * 0.5).reshape((ns, 4, 3))
+        acc.state()
+        for ri, req in enumerate((WIDE_REQ, WIDE_REQ[::-1], [37, 10, 11], WIDE_REQ[1:] + [301])):
+            exp = ref_from_sparse(data, cols.astype(np.int64), req)
+            try:
+                got = from_sparse(data.copy(), cols.copy(), np.array(req))
+            except Exception as e:
+                got = e
+            acc.step(True, 'a1w:wide-request')
+            if not (isinstance(got, np.ndarray) and got.shape == exp.shape and np.array_equal(got, exp)):
+                sig = '%s/from_sparse/wide-probe/%s' % (PROP, type(got).__name__ if isinstance(
+                    got, BaseException) else 'value')
+                acc.violation(sig, core.make_record(
+                    PROP, 'from_sparse', sig, case=case, op={'rows': list(table), 'requested': list(req)},
+                    expected=describe(exp), observed=describe(got)), order * 1000 + ti)
+                return
+
+
+RUN = {'a1': run_a1, 'a2': run_a2, 'a3': run_a3, 'a3x': run_a3x, 'a1w': run_a1w}
 
 
 def run_case(case, acc, order):
@@ -476,6 +509,7 @@ def explore(ctx):
     cases = [{'kind': 'a3', 'n_sub': n, 'variant': v, 'fill': ctx.seed}
              for n in (4, 5, 6, 7) for v in range(5 if ctx.thorough else 3)]
     cases += [{'kind': 'a3x', 'mode': mo, 'fill': ctx.seed} for mo in ('big', 'mixed')]
+    cases += [{'kind': 'a1w', 'n_spikes': n} for n in ((2, 3, 4, 5) if ctx.thorough else (2, 3, 4))]
     ctx.run_cases(run_case, cases, chunk=1, sweep='A3-pca-route')
     ctx.bounds = {'A1': {'n_spikes': [0, 1, 2], 'n_loc': [1, 2, 3], 'cols_alphabet': [0, 1, 2, -1],
                          'requested': 'repetition-free tuples of length 0..3 over {0,1,2,5}'},
